@@ -1,9 +1,9 @@
-CONSTANT P = 5
+CONSTANT P = 17
 CONSTANT ALPHA = 3
-CONSTANT GEN = 2
+CONSTANT GEN = 3
 CONSTANT DropKind = "none"
 CONSTANT DropIdx = 0
-CONSTANT Cases <- Cases5
+CONSTANT Cases <- Cases17T
 CONSTANT Sel = {}
 INIT InitRows
 NEXT NextRows
